@@ -371,6 +371,27 @@ func genC12(g *Gen) {
 		}
 		g.end()
 	}
+	// RowCountHint above 2000 with more than 1000 rows: the reader re-allocates its column buffers from an
+	// estimate after 1000 rows; columns that outgrow the estimate (cells getting longer, a running id)
+	hints := []int{2001}
+	if g.thorough() {
+		hints = []int{0, 2001, 1100, 2200, 5000}
+	}
+	for _, hint := range hints {
+		rows := [][]string{{"id", "txt", "n"}}
+		nrows := 1100
+		for i := 0; i < nrows; i++ {
+			txt := "s"
+			if i > 1010 {
+				txt = "a much longer cell in the later part of the file " + itoa(i)
+			}
+			rows = append(rows, []string{itoa(i * 7), txt, itoa(i % 5)})
+		}
+		doc := g.renderCSV(rows, ',')
+		g.begin("readcsv rowcounthint")
+		g.do(Step{Op: "ReadCSV", Recv: -1, Doc: bytesBS(doc), Csv: &CsvConf{RowCountHint: hint}, Reads: g.readSchedule(len(doc))})
+		g.end()
+	}
 	// read boundaries swept across every offset around the buffer capacities for one tricky document
 	cell := make([]byte, 1030)
 	for i := range cell {
